@@ -11,7 +11,10 @@ use std::sync::{Arc, Mutex};
 
 #[derive(Default)]
 pub struct Db {
+    /// documents per namespace `<database>.<collection>`
     pub collections: BTreeMap<String, Vec<Document>>,
+    /// unique single-field indexes that were really created: (namespace, field)
+    pub unique_indexes: std::collections::BTreeSet<(String, String)>,
     pub log: Vec<LogEntry>,
     pub seq: u64,
     /// secrets that must never travel to the database (plain passwords)
@@ -78,11 +81,11 @@ impl Stub {
     }
 
     pub fn users(&self) -> Vec<Document> {
-        self.db.lock().unwrap().collections.get("users").cloned().unwrap_or_default()
+        self.db.lock().unwrap().collections.get("adf-obdd.users").cloned().unwrap_or_default()
     }
 
     pub fn problems(&self) -> Vec<Document> {
-        self.db.lock().unwrap().collections.get("adf-problems").cloned().unwrap_or_default()
+        self.db.lock().unwrap().collections.get("adf-obdd.adf-problems").cloned().unwrap_or_default()
     }
 }
 
@@ -242,7 +245,10 @@ fn handle(db: &mut Db, cmd: &Document) -> Document {
     let lname = name.to_lowercase();
     db.seq += 1;
     *db.commands_by_kind.entry(lname.clone()).or_insert(0) += 1;
-    let coll = first.as_str().unwrap_or("").to_string();
+    let short = first.as_str().unwrap_or("").to_string();
+    let dbname = cmd.get_str("$db").unwrap_or("test").to_string();
+    // everything below works on the namespace, so a command aimed at another database cannot touch this one
+    let coll = format!("{}.{}", dbname, short);
     let mut entry = LogEntry {
         seq: db.seq,
         cmd: lname.clone(),
@@ -258,7 +264,19 @@ fn handle(db: &mut Db, cmd: &Document) -> Document {
         },
         "ping" | "endsessions" | "killcursors" => doc! {"ok": 1.0},
         "buildinfo" => doc! {"version": "5.0.0", "ok": 1.0},
-        "createindexes" => doc! {"createdCollectionAutomatically": true, "numIndexesBefore": 1, "numIndexesAfter": 2, "ok": 1.0},
+        "createindexes" => {
+            if let Ok(ixs) = cmd.get_array("indexes") {
+                for ix in ixs.iter().filter_map(|b| b.as_document()) {
+                    let unique = ix.get_bool("unique").unwrap_or(false);
+                    if let (true, Ok(key)) = (unique, ix.get_document("key")) {
+                        if key.len() == 1 {
+                            db.unique_indexes.insert((coll.clone(), key.keys().next().unwrap().clone()));
+                        }
+                    }
+                }
+            }
+            doc! {"createdCollectionAutomatically": true, "numIndexesBefore": 1, "numIndexesAfter": 2, "ok": 1.0}
+        }
         "find" => {
             let filter = cmd.get_document("filter").cloned().unwrap_or_default();
             entry.username = str_of(&filter, "username");
@@ -270,7 +288,7 @@ fn handle(db: &mut Db, cmd: &Document) -> Document {
                 .map(|c| c.iter().filter(|d| matches(d, &filter)).cloned().map(Bson::Document).collect())
                 .unwrap_or_default();
             let docs: Vec<Bson> = if limit > 0 { docs.into_iter().take(limit).collect() } else { docs };
-            doc! {"cursor": {"firstBatch": docs, "id": 0i64, "ns": format!("adf-obdd.{}", coll)}, "ok": 1.0}
+            doc! {"cursor": {"firstBatch": docs, "id": 0i64, "ns": coll.clone()}, "ok": 1.0}
         }
         "insert" => {
             let docs: Vec<Document> = cmd
@@ -282,7 +300,7 @@ fn handle(db: &mut Db, cmd: &Document) -> Document {
             for (i, mut d) in docs.into_iter().enumerate() {
                 entry.username = str_of(&d, "username");
                 entry.name = str_of(&d, "name");
-                if coll == "users" {
+                if db.unique_indexes.contains(&(coll.clone(), "username".to_string())) {
                     let u = d.get("username").cloned();
                     if db.collections.get(&coll).map(|c| c.iter().any(|x| x.get("username") == u.as_ref())).unwrap_or(false) {
                         errors.push(Bson::Document(doc! {"index": i as i32, "code": 11000, "errmsg": "E11000 duplicate key error collection: adf-obdd.users index: username_1"}));
@@ -318,7 +336,7 @@ fn handle(db: &mut Db, cmd: &Document) -> Document {
                 let upd = u.get_document("u").cloned().unwrap_or_default();
                 let is_ops = upd.keys().next().map(|k| k.starts_with('$')).unwrap_or(false);
                 // unique index on users.username also guards replacements
-                if coll == "users" && !is_ops {
+                if db.unique_indexes.contains(&(coll.clone(), "username".to_string())) && !is_ops {
                     let newname = upd.get("username").cloned();
                     let c = db.collections.get(&coll).cloned().unwrap_or_default();
                     if c.iter().any(|x| !matches(x, &q) && x.get("username") == newname.as_ref()) && c.iter().any(|x| matches(x, &q)) {
